@@ -294,6 +294,13 @@ func init() {
 			tok := []Value{mkByte(0x50), mkByte(0x42), mkByte(byte(id >> 16)), mkByte(byte(id >> 8)), mkByte(byte(id))}
 			return Tuple{tok, Iface{}}
 		}
+		x["google.golang.org/protobuf/proto.Clone"] = func(p *Path, th *Thread, fr *frame, a []Value) Value {
+			it := a[0].(Iface)
+			if it.T == nil {
+				return it
+			}
+			return Iface{T: it.T, V: deepCopyVal(it.V, map[*Value]*Value{})}
+		}
 		x["google.golang.org/protobuf/proto.Marshal"] = marshal
 		x["google.golang.org/protobuf/proto.Unmarshal"] = func(p *Path, th *Thread, fr *frame, a []Value) Value {
 			bs, okb := concreteBytes(a[0])
